@@ -71,16 +71,53 @@ def build_harness():
         lock.close()
 
 
-def harness(args, timeout=3600, env_extra=None):
-    env = dict(os.environ, RUST_BACKTRACE="0")
-    if env_extra:
-        env.update(env_extra)
+WATCHDOG_RERUNS = []       # watchdog kills that were looked at twice: (args, first record, outcome of the second run)
+
+
+def died_record(out_path):
+    """The record the harness left when it was taken down (None when it ran to the end)."""
+    p = out_path + ".died"
+    if not os.path.exists(p) or os.path.getsize(p) == 0:
+        return None
+    last = [x for x in read_lines(p) if x.strip()][-1:]
+    try:
+        o = json.loads(last[0]) if last else {}
+    except ValueError:
+        o = {}
+    return o if o.get("op") == "died" else {"op": "died", "why": "unknown"}
+
+
+def _harness_once(args, timeout, env):
     p = subprocess.run([HARNESS] + [str(a) for a in args], stdout=subprocess.PIPE, stderr=subprocess.PIPE,
                        text=True, timeout=timeout, env=env)
     if p.returncode != 0:
         raise ToolError("harness %s exited %d: %s" % (args[:2], p.returncode, p.stderr[-2000:]))
     last = [x for x in p.stdout.strip().split("\n") if x.strip()]
     return json.loads(last[-1]) if last else {}
+
+
+def harness(args, timeout=3600, env_extra=None):
+    """Run the harness.  A kill by the CPU-time watchdog says "this call did not return within its budget"; the
+    clock it reads also advances while the machine itself stalls the thread (first touch of memory after a
+    snapshot restore, a dozen JVMs started next to it).  A call that really does not return does so every time,
+    so the identical run (same seed, same budget) is made once more and its outcome is the one that counts:
+    a second kill is reported, a run that completes is used as the trace.  Every other way of dying (abort,
+    stack overflow, oversized allocation) is deterministic and reported at once."""
+    env = dict(os.environ, RUST_BACKTRACE="0")
+    if env_extra:
+        env.update(env_extra)
+    r = _harness_once(args, timeout, env)
+    out = str(args[4] if args[0] == "gen" else args[2])
+    d = died_record(out)
+    if d is not None and d.get("why") == "timeout" and os.environ.get("VERIF_WATCHDOG_RERUN", "1") != "0":
+        shutil.copy(out + ".died", out + ".died.first")
+        log("note: watchdog kill in harness %s (%s); repeating the identical run once"
+            % (" ".join(str(a) for a in args[:3]), {k: d[k] for k in d if k not in ("op", "why")}))
+        r = _harness_once(args, timeout, env)
+        d2 = died_record(out)
+        WATCHDOG_RERUNS.append({"run": [os.path.basename(str(a)) for a in args[:4]], "first": d,
+                                "second": "completed" if d2 is None else d2})
+    return r
 
 
 # ----------------------------------------------------------------------------- TLC
@@ -247,6 +284,8 @@ def violation(prop, path):
 
 def write_evidence(prop, tier, seed, level, coverage, wall, violations, assumptions=None):
     ensure_dirs()
+    if WATCHDOG_RERUNS and isinstance(coverage, dict):
+        coverage["watchdog_kills_looked_at_twice"] = list(WATCHDOG_RERUNS)
     ev = {"property_id": prop, "tier": tier, "seed": int(seed), "level": level, "coverage": coverage,
           "assumptions": assumptions or [], "wall_s": round(wall, 2), "violations": int(violations)}
     tmp = os.path.join(EVID, prop + ".json.tmp")
